@@ -37,8 +37,8 @@ MANIFEST = {
                   'duplicate-object detection.  Exploration with a systematic single-preemption component.',
     'level_note': 'Trusts CPython weakref/gc semantics, sys.monitoring and the scheduler\'s own threading primitives.',
 }
-PLAN = {'quick': {'shards': 4, 'timeout': 500, 'budget': 40},
-        'thorough': {'shards': 16, 'timeout': 2400, 'budget': 500}}
+PLAN = {'quick': {'shards': 4, 'timeout': 1800, 'budget': 900},
+        'thorough': {'shards': 16, 'timeout': 7200, 'budget': 2400}}
 N_HIST = {'quick': 60, 'thorough': 900}
 SAMPLE = [D.datetime(2020, 1, 15, 12), D.datetime(2020, 7, 15, 12), D.datetime(2020, 3, 8, 2, 30), D.datetime(2020, 11, 1, 1, 30),
           D.datetime(1950, 6, 1), D.datetime(2037, 12, 31, 23)]
